@@ -67,6 +67,62 @@ def run(ctx, obs):
     table_agreement(ctx, obs, R + 'RDMs.to_dict', R + 'rdms_from_dict')
     to_df_fields(ctx, obs)
     append_pairing(ctx, obs)
+    merged_descriptors(ctx, obs)
+
+
+def merged_descriptors(ctx, obs, rule='COVER'):
+    """concat / from_partials merge the rdm descriptors of ALL their inputs (`_merged_rdm_descriptors`):
+    (1) the names are collected from every input - a loop over a proper slice (`inputs[1:]`) that is the only place where
+        `.rdm_descriptors` keys are gathered forgets the names that only the first object has;
+    (2) a descriptor that one input lacks leaves a hole at that RDM's position - assigning to the whole entry
+        (`merged[name] = None`) inside the fill loop throws away what the earlier RDMs contributed (and the next store fails)."""
+    prog = ctx.prog
+    q = 'rdm.combine._merged_rdm_descriptors'
+    if q not in prog.functions:
+        obs.unk(rule, 'rdm.combine.from_partials', 'rdm descriptors of all inputs are merged', '_merged_rdm_descriptors not found')
+        return
+    f = prog.func(q)
+    src = f.pos_params[0] if f.pos_params else None
+    # (1)
+    gathers = []
+    for lp in [x for x in ast.walk(f.node) if isinstance(x, ast.For)]:
+        reads = [c for c in ast.walk(lp) if isinstance(c, ast.Attribute) and c.attr == 'rdm_descriptors'
+                 and any(isinstance(p_, ast.Call) and isinstance(p_.func, ast.Attribute) and p_.func.attr == 'keys' and p_.func.value is c
+                         for p_ in ast.walk(lp))]
+        if reads:
+            gathers.append(lp)
+    con = 'the rdm-descriptor names of every input are collected'
+    full = [lp for lp in gathers if isinstance(lp.iter, ast.Name) and lp.iter.id == src]
+    sliced = [lp for lp in gathers if isinstance(lp.iter, ast.Subscript) and isinstance(lp.iter.value, ast.Name) and lp.iter.value.id == src
+              and isinstance(lp.iter.slice, ast.Slice) and lp.iter.slice.lower is not None]
+    first_separately = any(isinstance(c, ast.Attribute) and c.attr == 'rdm_descriptors' and isinstance(c.value, ast.Subscript)
+                           and isinstance(c.value.value, ast.Name) and c.value.value.id == src and isinstance(c.value.slice, ast.Constant)
+                           and c.value.slice.value == 0 for c in ast.walk(f.node))
+    if full or (sliced and first_separately):
+        obs.ok(rule, q, con, '', where(prog, f, (full or sliced)[0]))
+    elif sliced:
+        obs.bad(rule, q, con, f'`for ... in {norm(sliced[0].iter)}` is the only loop that gathers `.rdm_descriptors.keys()`: an rdm descriptor that '
+                f'only the first object carries is dropped from the merged object (concat([a, b]) loses a\'s descriptors, concat([a]) all)',
+                where(prog, f, sliced[0]))
+    else:
+        obs.unk(rule, q, con, 'no loop gathering the names recognised', where(prog, f, f.node))
+    # (2)
+    con2 = 'a descriptor missing in one input leaves a hole only at that RDM'
+    bad2 = None
+    for lp in [x for x in ast.walk(f.node) if isinstance(x, ast.For)]:
+        for st in ast.walk(lp):
+            if isinstance(st, ast.Assign) and isinstance(st.targets[0], ast.Subscript) and isinstance(st.value, ast.Constant) and st.value.value is None:
+                t = st.targets[0]
+                # merged[name] = None  (one subscript level) while other stores in the loop use merged[name][pos]
+                if isinstance(t.value, ast.Name) and any(
+                        isinstance(o, ast.Assign) and isinstance(o.targets[0], ast.Subscript) and isinstance(o.targets[0].value, ast.Subscript)
+                        and isinstance(o.targets[0].value.value, ast.Name) and o.targets[0].value.value.id == t.value.id for o in ast.walk(lp)):
+                    bad2 = st
+    if bad2 is not None:
+        obs.bad(rule, q, con2, f'`{norm(bad2)}` replaces the whole list of that descriptor: the values of the RDMs seen so far are lost and the '
+                f'next `[...][pos] = value` raises TypeError', where(prog, f, bad2))
+    else:
+        obs.ok(rule, q, con2, '', where(prog, f, f.node))
 
 
 def subset_pattern_pairing(ctx, obs, rule='AXIS-pair'):
